@@ -83,6 +83,19 @@ def run(ck):
                              ["w " + hx(Pm[0]), "w " + hx(Pm[1]), "tors $0 $1", "w 5", f"mulgen $2 {e(J.GEN, 1)}", "tors $0 $1", "snap"]]):
         add(f"multi{k_}", L_, ("multi", "repeated calls", Pm, True))
         ck.count(("multi", k_), kind="repeated calls in one composer")
+    # acceptance must not depend on what the same composer accepted before: a valid call first, then a non-member
+    # that shares coordinates / encoding with it (identity as generator, inconsistent T1*T2 of the same point,
+    # another Z, an off-curve point with the same ordinate)
+    off = (Pm[0] + 2) % R
+    stateful = [([f"cpt {e(J.ID, 1)}", "w 5", f"mulgen $0 {e(J.ID, 1)}", "snap"], "JubJubGeneratorNotPrimeOrder", "identity accepted as a constant, then offered as generator"),
+                ([f"cpt {e(Pm, 1)}", f"cpt {hx(Pm[0])} {hx(Pm[1])} 1 {hx(Pm[0])} {hx((Pm[1] + 1) % R)}", "snap"], "JubJubPointNotTorsionFree", "valid constant, then the same point with inconsistent T1*T2"),
+                (["w 5", f"mulgen $0 {e(Pm, 1)}", f"cpt {hx(Pm[0])} {hx(Pm[1])} 1 {hx(Pm[0])} {hx((Pm[1] + 1) % R)}", "snap"], "JubJubPointNotTorsionFree", "valid generator, then the same point with inconsistent T1*T2 as constant"),
+                ([f"cpt {e(Pm, 1)}", f"cpt {hx(off)} {hx(Pm[1])} 1 {hx(off)} {hx(Pm[1])}", "snap"], "JubJubPointNotTorsionFree", "valid constant, then an off-curve point with the same ordinate"),
+                ([f"cpt {e(Pm, 1)}", f"cpt {hx((R - Pm[0]) % R)} {hx(Pm[1])} 1 {hx(Pm[0])} {hx(Pm[1])}", "snap"], "JubJubPointNotTorsionFree", "valid constant, then its negative with the T1*T2 of the original"),
+                ([f"cpt {e(Pm, 1)}", "cpt 0 0 0 1 1", "snap"], "JubJubPointDegenerate", "valid constant, then a zero-Z representation")]
+    for k_, (L_, err_, tag_) in enumerate(stateful):
+        add(f"state{k_}", L_, ("stateful", tag_, Pm, err_))
+        ck.count(("stateful", k_), kind="acceptance after an earlier valid call")
     script = "\n".join(lines) + "\n"
     rc, out_c, err_c = run_harness(script, "c13", "composer", checked=True)
     if rc != 0: raise BuildError("checked harness failed: " + err_c[-1500:])
@@ -100,6 +113,11 @@ def run(ck):
             ck.violation(f"entry point panicked instead of returning an error ({m[0]}, {m[1]}): {pan[0][:100]}", {"failing_input_found": True, "program": progs[name]}, key="panic:" + m[0]); continue
         errs = [l.split()[1] for l in out if l.startswith("E ")]
         kind = m[0]
+        if kind == "stateful":
+            if not errs or errs[-1] != m[3]:
+                ck.violation(f"after an earlier valid call on the same composer: {m[1]}: {'accepted' if not errs else errs}, the property requires {m[3]}",
+                             {"failing_input_found": True, "program": progs[name]}, key="stateful:" + m[3])
+            continue
         if kind in ("cpt", "mulgen"):
             ok_expected = m[3]
             want_err = None if ok_expected else ("JubJubPointNotTorsionFree" if kind == "cpt" else "JubJubGeneratorNotPrimeOrder")
